@@ -93,8 +93,11 @@ def part_witness(run, be):
 # ------------------------------------------------------------------ random histories
 def one_history(run, be, i):
     crng = random.Random(f"{run.seed}:hist:{i}")
-    n = crng.randint(1, 3)
+    freq_first = (i % 5 == 2)   # >= 2 registers, superposed states, frequencies(registers=True) before samples()
+    n = crng.randint(2 if freq_first else 1, 3)
     regs = random_registers(crng, n)
+    while freq_first and len(regs) < 2:
+        regs = random_registers(crng, n)
     hr = HistoryRun(be, n, regs)
     be.set_seed(crng.randrange(2 ** 31))
     nexec = crng.randint(1, 3)
@@ -104,9 +107,13 @@ def one_history(run, be, i):
     made = 0
     for t in range(nops):
         if t in pos:
-            ints, j = dyadic_state(crng, n, deterministic=(crng.random() < 0.3))
-            hr.execute(ints, j, crng.randint(1, 8))
+            ints, j = dyadic_state(crng, n, deterministic=(crng.random() < 0.3 and not freq_first))
+            while freq_first and sum(1 for a in ints if a != 0) < 3:
+                ints, j = dyadic_state(crng, n)
+            hr.execute(ints, j, crng.randint(4 if freq_first else 1, 8))
             made += 1
+            if freq_first:
+                hr.accessor("freqs", made - 1, crng.random() < 0.5, True)
         elif crng.random() < 0.08:
             hr.final()
         else:
